@@ -331,6 +331,19 @@ def run(chk):
         return True, "", [ent[0].loc]
     chk.ob("C03.R7:current", "current(id) snapshots (clones) the thread-local slot keyed by the id", current_fn)
 
+    def default_is_fresh():
+        bs = [b for b in P.bodies.values() if not b.is_closure and b.method == "default" and (b.self_ty or "") == TLC]
+        if not bs:
+            raise mir.AnchorMissing("Default for ThreadLocalCtxt")
+        b = bs[0]
+        cs = [c for c in b.calls(normal_only=True)]
+        if len(cs) != 1 or not (cs[0].callee.get("path") or "").endswith("ThreadLocalCtxt::new"):
+            return False, ("ThreadLocalCtxt::default() is %s, not ThreadLocalCtxt::new(): contexts made with Default (emit::setup() makes its "
+                           "context that way) would share one thread-local slot with each other and with the shared context instead of "
+                           "getting an id of their own" % [c.callee.get("path") for c in cs]), [], b.span
+        return True, "", [cs[0].loc]
+    chk.ob("C03.R7:default-is-fresh", "a defaulted context is a new context with an id of its own (per-instance isolation)", default_is_fresh)
+
     def callers_pass_self_id():
         sites = []
         for b in P.by_crate["emit"]:
